@@ -218,6 +218,10 @@ def lambda_is_identity(lam: ast.AST) -> bool:
     if not isinstance(b.body, ast.Name):
         return False
 
+    # (it has to be the one parameter there is: `lambda x, /, y=1: y` returns its default)
+    a = b.args
+    if a.posonlyargs or a.kwonlyargs or a.vararg or a.kwarg:
+        return False
     a1 = b.args.args[0].arg
     return a1 == b.body.id
 
